@@ -54,6 +54,8 @@ func runC15(o opts) error {
 			scns = append(scns, c15.GenMidRoute(2, 4, rng, 0)...)
 			scns = append(scns, c15.GenTick(2, 4, rng, 0)...)
 			scns = append(scns, c15.GenSelfNest(4, rng, 0)...)
+			scns = append(scns, c15.FixedTies())
+			scns = append(scns, c15.GenTies(rng, 3000)...)
 		} else {
 			scns = append(scns, c15.GenRoute(4, rng, 0)...)
 			scns = append(scns, c15.GenRoute(5, rng, 24)[118*2:]...)
@@ -72,6 +74,8 @@ func runC15(o opts) error {
 			scns = append(scns, c15.GenTick(2, 3, rng, 0)...)
 			scns = append(scns, c15.GenTick(4, 4, rng, 8)...)
 			scns = append(scns, c15.GenSelfNest(3, rng, 0)...)
+			scns = append(scns, c15.FixedTies())
+			scns = append(scns, c15.GenTies(rng, 150)...)
 		}
 	}
 	// -x kind=<prefix>: only the scenarios whose kind starts with prefix (development aid)
